@@ -32,6 +32,11 @@ pub fn shared(prop: &'static str, seed: u64) -> Vec<Scenario> {
             add(Tier::Quick, format!("liq.{}.{}", rn, pc.clone().partial().tag()), d_liq, 600, 150, Box::new(t_liq(pc.clone().partial(), ru)));
         }
         add(Tier::Quick, format!("liq.profitable-but-funding-debt.{}", p.tag()), d_liq, 600, 150, Box::new(t_liq_profitable(pc.clone())));
+        add(Tier::Quick, format!("opp-after-move.against.{}", p.tag()), "alice opens, 15 min pass, bob moves the price (spot != TWAP), alice's opposite order of symbolic size, then both close", 600, 150, Box::new(t_opp_after_move(pc.clone(), false)));
+        add(Tier::Quick, format!("opp-after-move.with.{}", p.tag()), "as above, bob trades the same way as alice", 600, 150, Box::new(t_opp_after_move(pc.clone(), true)));
+        add(Tier::Quick, format!("liq2.{}", p.tag()), "alice partially liquidated by one liquidator, then by a second and a third one in later blocks", 600, 150, Box::new(t_liq2(pc.clone(), false)));
+        add(Tier::Quick, format!("liq2.sameblock.{}", p.tag()), "two liquidations by different liquidators in one block", 600, 150, Box::new(t_liq2(pc.clone(), true)));
+        add(Tier::Quick, format!("liq-two-same-block.{}", p.tag()), "the liquidator opens its own position and liquidates two traders in that block", 600, 150, Box::new(t_liq_two_same_block(pc.clone())));
         // thorough
         add(Tier::Thorough, format!("close.with.{}", p.tag()), d_close, 300, 300, Box::new(t_close(pc.clone(), true)));
         add(Tier::Thorough, format!("close.sym.{}", p.tag()), d_close, 600, 600, Box::new(t_close(p.clone(), false)));
@@ -109,6 +114,9 @@ pub fn c04(seed: u64) -> Vec<Scenario> {
         add(Tier::Quick, format!("fund.close.{}", p.clone().fees().tag()), d, 600, 150, Box::new(t_fund(pc.clone().fees(), 0)));
         add(Tier::Quick, format!("fund.pclose.close.{}", p.tag()), d, 600, 150, Box::new(t_fund_pclose(pc.clone())));
         add(Tier::Quick, format!("fund.liq.close.{}", p.tag()), d, 600, 150, Box::new(t_fund_liq(pc.clone(), true)));
+        add(Tier::Quick, format!("fund.close.{}", pc.clone().trend().tag()), d, 600, 150, Box::new(t_fund(pc.clone().trend(), 0)));
+        add(Tier::Quick, format!("fund.pclose.close.{}", pc.clone().trend().tag()), d, 600, 150, Box::new(t_fund_pclose(pc.clone().trend())));
+        add(Tier::Quick, format!("opp-after-move.{}", p.tag()), d, 600, 150, Box::new(t_opp_after_move(pc.clone(), false)));
         for (rn, ru) in [("healthy", 3u128), ("zero-equity", 7), ("bad-debt", 45)] {
             add(Tier::Quick, format!("close10x.{}.{}", rn, p.tag()), d, 400, 150, Box::new(t_close_regime(pc.clone(), ru)));
         }
@@ -142,6 +150,10 @@ pub fn c05(seed: u64) -> Vec<Scenario> {
         add(Tier::Quick, format!("depwd.{}", p.tag()), d, 400, 120, Box::new(t_depwd(pc.clone())));
         add(Tier::Quick, format!("fund.withdraw.{}", p.tag()), d, 600, 150, Box::new(t_fund(pc.clone(), 1)));
         add(Tier::Quick, format!("fund.increase.{}", p.tag()), d, 600, 150, Box::new(t_fund(pc.clone(), 2)));
+        add(Tier::Quick, format!("fund.withdraw.{}", pc.clone().trend().tag()), d, 600, 150, Box::new(t_fund(pc.clone().trend(), 1)));
+        add(Tier::Quick, format!("fund.increase.{}", pc.clone().trend().tag()), d, 600, 150, Box::new(t_fund(pc.clone().trend(), 2)));
+        add(Tier::Quick, format!("fund.reverse.{}", pc.clone().trend().tag()), d, 600, 150, Box::new(t_fund(pc.clone().trend(), 3)));
+        add(Tier::Quick, format!("opp-after-move.{}", p.tag()), d, 600, 150, Box::new(t_opp_after_move(pc.clone(), false)));
         add(Tier::Thorough, format!("open.{}", p.clone().lev().wide().tag()), d, 2000, 900, Box::new(t_open(p.clone().lev().wide())));
         add(Tier::Thorough, format!("opp.sym.{}", p.clone().lev().tag()), d, 1500, 900, Box::new(t_open2(p.clone().lev(), false)));
     }
@@ -172,6 +184,13 @@ pub fn liq(prop: &'static str, seed: u64) -> Vec<Scenario> {
         add(Tier::Quick, format!("shallow.{}", pc.clone().native().partial().tag()), d, 600, 150, Box::new(t_liq(pc.clone().native().partial(), 5)));
         add(Tier::Quick, format!("deep.{}", pc.clone().native().tag()), d, 600, 150, Box::new(t_liq(pc.clone().native(), 45)));
         add(Tier::Quick, format!("profitable-but-funding-debt.{}", pc.tag()), d, 600, 150, Box::new(t_liq_profitable(pc.clone())));
+        add(Tier::Quick, format!("fund.pclose.liq.{}", pc.tag()), d, 600, 150, Box::new(t_fund_pclose_liq(pc.clone(), true)));
+        add(Tier::Quick, format!("fund.pclose.liq.{}", pc.clone().trend().tag()), d, 600, 150, Box::new(t_fund_pclose_liq(pc.clone().trend(), true)));
+        add(Tier::Quick, format!("fund.liq.full.{}", pc.tag()), d, 600, 150, Box::new(t_fund_liq(pc.clone(), false)));
+        add(Tier::Quick, format!("fund.liq.partial.{}", pc.tag()), d, 600, 150, Box::new(t_fund_liq(pc.clone(), true)));
+        add(Tier::Quick, format!("liq2.{}", pc.tag()), d, 600, 150, Box::new(t_liq2(pc.clone(), false)));
+        add(Tier::Quick, format!("liq2.sameblock.{}", pc.tag()), d, 600, 150, Box::new(t_liq2(pc.clone(), true)));
+        add(Tier::Quick, format!("two-same-block.{}", pc.tag()), d, 600, 150, Box::new(t_liq_two_same_block(pc.clone())));
         add(Tier::Quick, format!("prepaid-bad-debt.{}", pc.tag()), d, 600, 150, Box::new(t_liq_prepaid(pc.clone())));
         add(Tier::Quick, format!("prepaid-bad-debt.{}", pc.clone().native().tag()), d, 600, 150, Box::new(t_liq_prepaid(pc.clone().native())));
         add(Tier::Quick, format!("shallow.{}", pc.clone().real_feed().tag()), d, 600, 150, Box::new(t_liq(pc.clone().real_feed(), 5)));
@@ -219,6 +238,20 @@ pub fn faults(seed: u64) -> Vec<Scenario> {
         add(Tier::Quick, "liq.shallow", Box::new(t_liq(p.clone(), 5)));
         add(Tier::Thorough, "depwd", Box::new(t_depwd(p.clone())));
         add(Tier::Thorough, "fund.close", Box::new(t_fund(p.clone(), 0)));
+    }
+    v
+}
+
+/// generated histories for a property whose monitors / step oracle apply to every operation
+pub fn generated(prop: &'static str, seed: u64, quick_n: u64, thorough_n: u64) -> Vec<Scenario> {
+    let lc = prop.to_lowercase();
+    let d = "pseudo-random history of 4-7 operations over three traders and two liquidators (opens of either side and several leverages, closes, deposits, withdrawals, liquidation attempts, funding settlements with oracle moves, block gaps of 15 s / 15 min), configuration (partial ratio, liquidation fee, fees) drawn per history; concrete amounts except the last operation's, which is symbolic; determined by (VERIF_SEED, index)";
+    let mut v = vec![];
+    for idx in 0..thorough_n {
+        let p = P::new(prop, Buy, seed);
+        let p = if idx % 5 == 4 { p.native() } else { p };
+        let tier = if idx < quick_n { Tier::Quick } else { Tier::Thorough };
+        v.push(sc(prop, tier, &format!("{}.gen.{:03}", lc, idx), d, 200, 60, t_gen(p, idx)));
     }
     v
 }
